@@ -27,6 +27,7 @@ import Imeta.Lemmas.ExifNested
 import Imeta.Lemmas.ExifField2
 import Imeta.Lemmas.ExifField3
 import Imeta.Lemmas.ExifField4
+import Imeta.Lemmas.ExifField5
 namespace Imeta.Exif
 open Imeta
 
@@ -719,6 +720,21 @@ theorem C03_flash_end_to_end (tb : Tables) (F : Bytes) (buffered : Bool) (h : Hd
     (hv : parseUint16 a = .ok v) (hpost : ∀ t ∈ post, ¬(t.ifd = exifIFD ∧ t.id = 0x9209)) :
     r'.ex.flash = v :=
   flash_exact (decodeTiff_nested tb F buffered h cnt r' e W hsmall w hroot hrootW hres).2.1 pre post a v hsplit h0 hid hv hpost
+
+/-- **Make, end to end** (IFD0, 0x010f): the record's make string and make enum are `makeOf tb` — the library's
+CameraMakeFromString / String tables, parameters of the model — applied to F[a.off, a.off+a.size) minus trailing padding -/
+theorem C03_make_end_to_end (tb : Tables) (F : Bytes) (buffered : Bool) (h : Hdr) (cnt : Nat) (r' : R) (e : Option ErrKind)
+    (W : Tag → Prop) (hsmall : F.length < 2 ^ 32)
+    (w : World F (4 * 1024 * 1024) (if buffered then bufioSize else scratchSize) W)
+    (hroot : DirOK F { off := 0, base := 0, order := h.order, typ := h.firstIfdType, idx := 0 } h.firstIfd cnt (4 * 1024 * 1024)
+      (if buffered then bufioSize else scratchSize) (extent F))
+    (hrootW : ∀ x, IsEntry F { off := 0, base := 0, order := h.order, typ := h.firstIfdType, idx := 0 } h.firstIfd cnt x ∨
+      IsStubEntry F { off := 0, base := 0, order := h.order, typ := h.firstIfdType, idx := 0 } h.firstIfd cnt x → W x)
+    (hres : decodeTiff tb F buffered h = .ok (r', e))
+    (pre post : List Tag) (a : Tag) (hsplit : r'.parsed = pre ++ a :: post) (h0 : a.ifd = ifd0) (hid : a.id = 0x010f)
+    (hemb : a.isEmbedded = false) (hasc : isASCII a = true) (hpost : ∀ t ∈ post, ¬(t.ifd = ifd0 ∧ t.id = 0x010f)) :
+    (r'.ex.make, r'.ex.cameraMake) = makeOf tb (trimNUL (slice F a)) :=
+  make_exact (decodeTiff_nested tb F buffered h cnt r' e W hsmall w hroot hrootW hres).2.1 pre post a hsplit h0 hid hemb hasc hpost
 
 /-- on the sample file, through the theorem (not by running the model): LensModel is "RF 50mm" -/
 example (r' : R) (e : Option ErrKind)
